@@ -1195,6 +1195,57 @@ def run_d9c(rig, out, k, seed):
     return 1 if stored == "None" else 0
 
 
+def run_d14(rig, out, k, seed):
+    """D14: check-then-act in add_adf_problem. Two devices of ONE account add a problem under the same name at
+    the same time: the first request's insert_one is held back by the stub until the second request has done its
+    find_one and insert_one. Neither request goes through the sequential model (it has no overlapping requests);
+    the outcome is judged by the `addrace` specification line."""
+    import threading
+    rig.ensure()
+    rig.stub.reset()
+    out.write("case web-%d mode=d14 seed=%d\n" % (k, seed))
+    run = Run(rig, out, "d9")
+    cred = [("username", "alice"), ("password", PWS[0])]
+    run.http("j0", "POST", "/users/register", cred)
+    run.http("j0", "POST", "/users/login", cred)
+    run.http("j1", "POST", "/users/login", cred)
+    j0, j1 = run.jar("j0"), run.jar("j1")
+    h = rig.stub.hold("insert", "adf-problems", k=0)
+    res = {}
+
+    def first():
+        res["a"] = send(j0, "POST", "/adf/add", [("name", "p1"), ("code", CODE_A), ("parsing", "Naive")])
+
+    t = threading.Thread(target=first)
+    t.start()
+    arrived = h.wait_arrived(60)
+    rb = send(j1, "POST", "/adf/add", [("name", "p1"), ("code", CODE_B), ("parsing", "Naive")])
+    h.release()
+    t.join(120)
+    accepted = sum(1 for r in (res.get("a"), rb) if r and r[0] == 200)
+    rig.stub.wait_applied(is_task_write, accepted, timeout=120)
+    docs = 0
+    for ns, ds in rig.stub.dump().items():
+        if "adf-problems" in ns:
+            docs += sum(1 for d in ds if d.get("name") == "p1")
+    agree = 1
+    try:
+        st, data, _ = send(j0, "GET", "/adf/p1", None)
+        obj = json.loads(data.decode())
+        po = obj["acs_per_strategy"]["parse_only"]
+        labels = sorted(set(po["content"][0]["graph"]["node_labels"].values())) if po.get("type") == "Some" else []
+        want = ["a", "b"] if obj.get("code") == CODE_A else ["x"]
+        if po.get("type") == "Some" and not set(l for l in labels if l.isalpha()) <= set(want):
+            agree = 0
+    except (ValueError, KeyError, IndexError, TypeError):
+        agree = 0
+    run.emit("addrace p1")
+    run.emit("~ accepted=%d documents=%d code-and-picture-agree=%d" % (accepted, docs, agree))
+    reproduced = 1 if (accepted, docs) != (1, 1) else 0
+    out.write("# known D14 reproduced=%d held=%d variant=add-add-race\n" % (reproduced, 1 if arrived else 0))
+    return reproduced
+
+
 def do_run(args, out):
     rig = Rig(args.server_bin)
     try:
@@ -1217,6 +1268,8 @@ def do_run(args, out):
                 run_conc_case(rig, out, k, seed, hist, njars)
             elif args.mode == "d9":
                 (run_d9a, run_d9b, run_d9c)[k % 3](rig, out, k, seed)
+            elif args.mode == "d14":
+                run_d14(rig, out, k, seed)
             else:
                 raise SystemExit("unknown mode " + args.mode)
             out.flush()
@@ -1239,6 +1292,9 @@ def do_exec(args, out):
         for k, (head, reqs) in enumerate(cases):
             m = re.search(r"mode=(\S+)", head)
             mode = m.group(1) if m else "seq"
+            if mode == "d14":
+                run_d14(rig, out, k, 0)
+                continue
             if mode in ("d9", "d9b", "d9c"):
                 {"d9": run_d9a, "d9b": run_d9b, "d9c": run_d9c}[mode](rig, out, k, 0)
                 continue
